@@ -20,6 +20,15 @@ CHECKS = {
    text="Seeded search over multi-input session histories plus a deterministic sweep (parameter count 0..12 x loop depth 0..10 x exit kind): the same concrete history runs on the real interpreter with registers on and off and every input must give identical output/value/outcome class and identical final globals; deadline faults are addressed by the k-th execution of a planted marker so they hit the same program point in both modes. Recorded (not repaired) divergences about loop-variable scoping are re-observed by fixed probe histories and printed as KNOWN-FINDING.",
    note="Generated programs avoid type()/info; loop variables get unique names in the random batch so the recorded loop-variable-scoping findings stay confined to their probes; error wording is not compared.",
    tech="deterministic simulation: seeded session histories + marker-addressed cancellation, differential between NoReg=false/true of the same real code"),
+
+ "C11": dict(cat="exploration", ref="5.7",
+   text="Seeded sequential-history refinement: random operation histories (set/update/delete/merge/rest/range/literal with duplicates/permuted rebuild) over per-run universes of 3..16 mixed-type keys are applied in lock-step to object.Map via the Go API, to a variable of a real grol session via source text, and to an association-list model; after every operation length, lookup of every key, iteration order, printed form, equality with a canonically built twin and immutability of + operands are compared. No faults apply (stated); sampled, not enumerated.",
+   note="Cross-type key rank is learned from one canonical build per run (history independence rather than a hard-coded rank); int/float keys of equal value, NaN and -0 are left to C12.",
+   tech="deterministic simulation harness used as seeded history search: sequential refinement of the real map implementation (API and language level) against a small executable reference model"),
+ "C20": dict(cat="exploration", ref="5.14",
+   text="Seeded sequential-history refinement of trie.Trie against a Go set: insertion histories biased to prefix/extension relations over 2-4 letter alphabets incl. bytes 0x00/0xFF, with Contains checked for every universe word and PrefixAll (words, byte order, common-prefix length) for every prefix after each insertion; plus real sessions with a registered trie where after every succeeding or failing input the index must equal the initial content plus name/name+' '/name+'(' of every newly bound global, and completion via PrefixAll(line[:pos]) only extends typed text towards defined words. No faults apply (stated).",
+   note="The terminal printing part of repl/completion.go is not driven (needs a tty); the simulator calls the Trie.PrefixAll it delegates to.",
+   tech="deterministic simulation harness used as seeded history search: sequential refinement of the real trie (direct and through a live session) against a set model"),
 }
 
 NA = {
